@@ -94,6 +94,14 @@ CLAIMED["C13"] = dict(
     technique="Coq proof over an abstract group (Section hypotheses) + correspondence with BigZ curve arithmetic evaluated by vm_compute",
 )
 
+CLAIMED["C14"] = dict(
+    category="proof",
+    text="Theorems in coq/Props/Properties_C14.v, one guard function per C site mirroring statement order: every JSON value of p2c that is not an integer in 1..32768 is refused on unwrap with no KDF request, and outside 1000..32768 on wrap (64-bit value, no wrap-around: C14_p2c_unw, C14_p2c_unw_passes, C14_p2c_wrp, C14_p2c_wrp_refuses); iterations performed <= 32768 on both paths for any KDF (C14_work_bound); salt 8..1024 and all stores into st[1024] below capacity on every path (from C08's dec_buf_bounds); zip in the protected header and ciphertext text above 262144 refused before decoding; inflate feed above 262144 refused; per-site KEYMAX theorems (hmac, oct, aeskw wrap/unwrap, pbkdf2, ecdhes dk/pu/pv/ky) giving capacity, all writes below it, and the bound on the length handed on; the generated constants equal the property's literals. Tie: the same cases on the real functions with PKCS5_PBKDF2_HMAC / HMAC_Init_ex / EVP_*Update interposed, so 'no derivation / no byte decoded' is observed; boundaries of every limit; implementation-only oracle.",
+    design_ref="DESIGN.md section 3 C14",
+    note="Coq kernel; no axioms. 'Completes promptly' is measured (<= ~1 ms per guard refusal under sanitizers), not proved. int conversion modelled as reduction mod 2^32 (wrap32). AES-KW cipher block size 8 is a model constant exercised at 1040/1041. aesgcmkw.c / rsaes.c use malloc sized from data: no fixed buffer.",
+    technique="Coq proof on guard-site models using generated constants + interposed-primitive correspondence",
+)
+
 CLAIMED["C17"] = dict(
     category="proof",
     text="Theorems in coq/Props/Properties_C17.v: (A) configuration contexts as a state machine over arbitrary operation histories -- operations on one context never change another context's handler, user pointer, deliveries or call results (C17_ctx_isolated), every delivery carries the handler and pointer registered with its own context, get_err_misc returns the last registered pointer, clearing falls back to the default handler; (B) an ownership model of the header-merge prologue gives back every reference; (C) C17_schedule_free: if every thread reads/writes only its own component, every schedule yields the sequential per-thread results (induction on schedules), with a counterexample when the footprint premise fails. Tie: all histories of length <= 4 over 23 context operations vs real contexts with logging handlers; every read-only entry point and the shared-template paths called on valid and mutated inputs with deep-equality, dump and reference-count comparison of every argument; 2..16 threads of independent operations vs the sequential run (TSan in the thorough tier).",
